@@ -10,31 +10,35 @@ From CG Require Import Base.Prelude Model.Ast Model.Parser Model.Check Model.Dfa
 From CG Require Import Spec.Lang Spec.ScriptRead Spec.Meaning Spec.Domain Spec.Invocations Spec.KnownC01.
 From CG Require Import Proofs.TablesSound Proofs.BashCodec Proofs.BashScript Proofs.TreeFacts Proofs.EmbedEndToEnd.
 From CG Require Import Proofs.CheckTree Proofs.SubChecks Proofs.BashMeaningSub Proofs.BashMeaningMix
-  Proofs.StripFacts Proofs.GlobFacts Proofs.CompilerTotal.
+  Proofs.StripFacts Proofs.GlobFacts Proofs.CompilerTotal Proofs.SubBridge Proofs.CapstoneShape
+  Proofs.CapstoneDescr Proofs.CapstoneLits.
 From CG Require Props.C05b Props.C04b Props.C01.
 Open Scope N_scope.
 Open Scope list_scope.
 
-(** no literal is listed twice: what [get_all_literals] produces unless one literal occurs both
-    without a description and with the empty description "" (then Rust lists it twice:
-    [cmd (x a | y a "");]) -- decidable on the oracle, evaluated by the tie *)
-Definition lits_nodup (o : oracles) : bool :=
-  nodup_pairs (o_main_lits o) && forallb (fun e => nodup_pairs (snd e)) (o_sub_lits o).
-
-Lemma lits_nodup_main o : lits_nodup o = true -> NoDup (o_main_lits o).
-Proof. unfold lits_nodup. intro H. apply andb_prop in H. apply nodup_pairs_sound. tauto. Qed.
-
-Lemma lits_nodup_sub o pi ord : lits_nodup o = true -> assocN pi (o_sub_lits o) = Some ord -> NoDup ord.
+(** No literal is listed twice in a literal order [orders_ok] accepts, PROVIDED no description
+    string of the grammar text is empty ([text_descr_ok], decidable on the text).  With an empty
+    description Rust lists a literal twice when it also occurs without one
+    ([cmd (x a | y a "");] -> [literals=("y" "x" "a" "a")]): harmless there (only the later entry has
+    transitions; the script skips an entry without one), but the emitted tables are then not a
+    function of the automata, so the model excludes it at the source. *)
+Lemma text_orders_nodup o builtins text g v c :
+  Parser.parse text = Ok g -> from_grammar builtins g Bash = Ok v ->
+  compile_valid (pick_table (o_pops o)) (o_fuel o) v = Ok c ->
+  orders_ok c (o_main_lits o) (o_sub_lits o) = true -> text_descr_ok text = true ->
+  NoDup (o_main_lits o) /\ (forall pi ord, assocN pi (o_sub_lits o) = Some ord -> NoDup ord).
 Proof.
-  unfold lits_nodup. intros H Ha. apply andb_prop in H. destruct H as [_ H]. rewrite forallb_forall in H.
-  apply assocN_in in Ha. apply nodup_pairs_sound. apply (H (pi, ord) Ha).
+  intros Hg Hv Hcv Ho Ht.
+  exact (compiled_orders_nodup _ _ v c _ _ Hcv
+           (from_grammar_tok builtins g Bash v (text_descr_ok_sound text g Hg Ht) Hv) Ho).
 Qed.
 
 Lemma sub_orders_ok_of c o :
-  orders_ok c (o_main_lits o) (o_sub_lits o) = true -> lits_nodup o = true -> sub_orders_ok c (o_sub_lits o).
+  orders_ok c (o_main_lits o) (o_sub_lits o) = true ->
+  (forall pi ord, assocN pi (o_sub_lits o) = Some ord -> NoDup ord) -> sub_orders_ok c (o_sub_lits o).
 Proof.
   intros Ho Hn pi sd Hsd. split.
-  - destruct (assocN pi (o_sub_lits o)) as [ord|] eqn:E; [eapply lits_nodup_sub; eauto|constructor].
+  - destruct (assocN pi (o_sub_lits o)) as [ord|] eqn:E; [eapply Hn; eauto|constructor].
   - exact (orders_ok_sub c _ _ pi sd Ho Hsd).
 Qed.
 
@@ -76,7 +80,7 @@ Theorem compile_bash_meaning o builtins text s :
     /\ all_tables Bash c (o_main_lits o) (o_sub_lits o) = Ok (nd, a)
     (* what the script text carries *)
     /\ (name_ok (v_command v) -> no_nl (o_sig o) = true ->
-        Forall (fun cmd => body_ok (cmd_body cmd)) (a_commands a) -> lits_nodup o = true ->
+        Forall (fun cmd => body_ok (cmd_body cmd)) (a_commands a) -> text_descr_ok text = true ->
         (exists sts,
             script_stmts (v_command v) (d_start (c_main c)) nd a (o_groups o) = Ok sts
             /\ read_stmts Bash (v_command v) s = sts
@@ -87,8 +91,8 @@ Theorem compile_bash_meaning o builtins text s :
         /\ (forall w, accepts_items c w <-> denotes (v_expr v) w))
     (* what the functions of the script compute on those tables *)
     /\ (forall (benv : BashSem.env) (en : Meaning.env) ws p,
-        mix_tree (v_expr v) = true -> lits_nodup o = true -> subs_deterministic c ->
-        C01_domain (v_expr v) = true ->
+        text_descr_ok text = true -> subs_deterministic c ->
+        C01_domain (v_expr v) = true -> C01_env_ok (v_expr v) en = true ->
         BashSem.e_ignore_case benv = false -> BashSem.e_wordbreaks benv = Meaning.e_wordbreaks en ->
         breaks_ok (BashSem.e_wordbreaks benv) = true -> plain p = true -> printable_str p = true ->
         (forall cm cid, Tables.index_of cm (a_commands a) = Some cid ->
@@ -98,19 +102,21 @@ Theorem compile_bash_meaning o builtins text s :
         | None => exists log, run_from Repaired (d_start (c_main c)) a benv ws p = Ok (mkresult 1 [] log)
         | Some (req, al) =>
             exists reply log, run_from Repaired (d_start (c_main c)) a benv ws p = Ok (mkresult 0 reply log)
-                              /\ (forall x, In x reply <-> In x req) /\ incl req al
+                              /\ incl req reply /\ incl reply al
         end).
 Proof.
   intro H. destruct (compile_bash_inv o builtins text s H) as [g [v [c [nd [a [Hg [Hv [Hcv [Hc [Halts [Ho [Ha [Vg Hs]]]]]]]]]]]]].
   exists v, c, nd, a. split; [exact Hc|]. split; [exact Ha|]. split.
   - intros Hn Hsig Hb Hnd.
-    destruct (Props.C04b.C04_end_to_end_bash _ _ _ _ _ _ _ _ _ _ _ _ _ Hc Hn Hsig Hb (lits_nodup_main o Hnd)
-                (fun pi ord E => lits_nodup_sub o pi ord Hnd E) Ha Hs) as [[sts [S1 [S2 [S3 [S4 S5]]]]] [T D]].
+    destruct (text_orders_nodup o builtins text g v c Hg Hv Hcv Ho Hnd) as [Nm Ns].
+    destruct (Props.C04b.C04_end_to_end_bash _ _ _ _ _ _ _ _ _ _ _ _ _ Hc Hn Hsig Hb Nm Ns Ha Hs) as [[sts [S1 [S2 [S3 [S4 S5]]]]] [T D]].
     split; [|split; assumption].
     exists sts. split; [exact S1|]. split; [exact S2|]. split; [exact S3|]. split; [exact S4|].
     intro Hw. exact (S5 Vg Hw).
-  - intros benv en ws p Hm Hnd Hdet Hdom Hic Hwb Hbr Hpl Hpr Hcm Hamb.
-    exact (Props.C01.C01_bash_meaning_mixed _ _ v c _ _ nd a benv en ws p Hm Halts Hcv Ha
-             (lits_nodup_main o Hnd) (orders_ok_main c _ _ Ho) (sub_orders_ok_of c o Ho Hnd) Hdet Hdom
+  - intros benv en ws p Hnd Hdet Hdom Henv Hic Hwb Hbr Hpl Hpr Hcm Hamb.
+    destruct (text_orders_nodup o builtins text g v c Hg Hv Hcv Ho Hnd) as [Nm Ns].
+    exact (Props.C01.C01_bash_meaning _ _ v c _ _ nd a benv en ws p
+             (parsed_sub_tree builtins text g Bash v Hg eq_refl Hv) Halts Hcv Ha
+             Nm (orders_ok_main c _ _ Ho) (sub_orders_ok_of c o Ho Ns) Hdet Hdom Henv
              Hic Hwb Hbr Hpl Hpr Hcm Hamb).
 Qed.
